@@ -8,7 +8,7 @@ from mirsym.models import is_ws, str_push
 from .common import *
 from mirsym.harness import process_failed, witness, discharge_known
 
-from .c01 import job_token_inductive, replayer as lemma_replayer
+from .c01 import job_token_inductive, lemma_jobs, replayer as lemma_replayer
 PID = 'C08'
 
 
@@ -213,7 +213,7 @@ def job_error_kinds(ctx, jr, B):
 
 # ---------------------------------------------------------------------- native replay
 def replayer(v):
-    if v.get('kind') == 'c01_lemma': return lemma_replayer(v)
+    if v.get('kind') in ('c01_lemma', 'c01_struct', 'c01_arglist'): return lemma_replayer(v)
     out = H.replay(dict(mode='parse', text=v['text'])); v['native'] = out
     if out.get('panic'): return (True, 'native panic')
     if v['kind'] == 'c08_error':
@@ -258,6 +258,7 @@ def main(tier, seed):
         chk.job(job_script, 'b:3x3', n=3, W=3)
         chk.job(job_error_kinds, 'c:kinds', B=2)
         chk.job(job_token_inductive, 'd:scanner error lemmas', N=24, C=12, part='C08')
+        lemma_jobs(chk, 'C08', 24, 12)
         chk.bounds = dict(a='one arbitrary line <= 8 chars', b='<= 3 arbitrary lines x <= 3 chars, LF/CRLF', c='10 malformed classes with <= 2 free chars at line 1..3',
                           d='per-iteration lemmas of the token scanner: any position of a buffer <= 24, accumulated text <= 12 (DESIGN 8.6)')
     else:
@@ -266,6 +267,7 @@ def main(tier, seed):
         chk.job(job_script, 'b:2x6', n=2, W=6)
         chk.job(job_error_kinds, 'c:kinds', B=4)
         chk.job(job_token_inductive, 'd:scanner error lemmas', N=64, C=32, part='C08')
+        lemma_jobs(chk, 'C08', 64, 32)
         chk.bounds = dict(a='one arbitrary line <= 12 chars', b='<= 4 lines x <= 3 chars and <= 2 lines x <= 6 chars', c='10 malformed classes with <= 4 free chars',
                           d='per-iteration lemmas of the token scanner: any position of a buffer <= 64, accumulated text <= 32 (DESIGN 8.6)')
     chk.assumptions = ['std models for String/Vec/str::lines/trim/chars; the text is built line by line (unique LF/CRLF decomposition)',
